@@ -52,6 +52,8 @@ def method_options(rng, method, ts, mu=None):
             kw["probability_space"] = rng.choice(["linear", "logarithmic"])
         if rng.random() < 0.3:
             kw["num_threads"] = rng.choice([None, 1, 2])
+    if rng.random() < 0.35:
+        kw["_via_date"] = True     # enter through the generic tsdate.date(ts, method=...) wrapper (see call())
     return kw
 
 
@@ -59,6 +61,12 @@ def call(fname, ts, **kw):
     """-> ("ok", result) | ("raise", ExcType, message)"""
     import tsdate
     fn = getattr(tsdate, fname)
+    via = bool(kw.get("_via_date")) and fname != "date"
+    kw = {k: v for k, v in kw.items() if k != "_via_date"}
+    if via:
+        # the same call through the generic wrapper, which forwards every option by name
+        kw["method"] = fname
+        fn = tsdate.date
     with warnings.catch_warnings():
         warnings.simplefilter("ignore")
         try:
